@@ -511,4 +511,238 @@ theorem runMemo_spec {p : Prog} (hp : MemoOK p) {f : Nat} (hu : UpdOK p (upd p f
     rw [← this]
     exact hverup (by rw [← hflag]; exact hc)
 
+/-! ## the `any` loop of `needs_update` -/
+
+structure AnyPost (p : Prog) (s : State) (m : Nat) (l : List Nat) (r : State × Bool) : Prop where
+  inv : InvR p r.1
+  frame : Frame s r.1 m
+  obs : r.1.obs = s.obs
+  running : ∀ i, (r.1.get i).running = (s.get i).running
+  allClean : r.2 = false → (∀ x ∈ l, (s.get x).kind = .memo → (r.1.get x).st = .clean) ∧
+    (r.1.get m).st ≠ .dirty
+  just : r.2 = true → (r.1.get m).runs ≠ 0 → ∃ e ∈ (r.1.get m).seen, (r.1.get e.1).ver ≠ e.2.2
+
+theorem anySrc_spec {p : Prog} {u : State → Nat → State × Bool} {f : Nat} (hu : UpdOK p u f)
+    {m : Nat} (hmf : m ≤ f) : ∀ (l : List Nat) (s : State), InvR p s → (s.get m).kind = .memo →
+      (s.get m).running = false → (∀ r, (s.get r).running = true → m < r) →
+      (s.get m).st ≠ .dirty →
+      (∀ x ∈ l, x ∈ (s.get m).sources) → AnyPost p s m l (anySrc u true m l s) := by
+  intro l
+  induction l with
+  | nil =>
+    intro s h _ _ _ hnd _
+    exact ⟨h, Frame.refl s m, rfl, fun _ => rfl, fun _ => ⟨fun _ hx => (by cases hx), hnd⟩,
+      fun hc => by cases hc⟩
+  | cons x l ih =>
+    intro s h hk hr hlow hnd hl
+    have hxs : x ∈ (s.get m).sources := hl x List.mem_cons_self
+    have hxm : x < m := h.srcLt m x hxs
+    have hxr : (s.get x).running = false := by
+      cases hrx : (s.get x).running with
+      | false => rfl
+      | true => have := hlow x hrx; omega
+    have hp := hu s x h (by omega) hxr (fun r hr' => by have := hlow r hr'; omega)
+    unfold anySrc
+    generalize u s x = r1 at hp
+    obtain ⟨s1, ch⟩ := r1
+    simp only at hp ⊢
+    have fr1 : Frame s s1 m := hp.frame.mono (by omega)
+    have ab := hp.frame.above m (by omega)
+    have cf := Node.core_fields ab.1
+    have hk1 : (s1.get m).kind = .memo := by rw [cf.1]; exact hk
+    have hr1 : (s1.get m).running = false := by rw [cf.2.2.2.2.2.1]; exact hr
+    have hseen1 : (s1.get m).seen = (s.get m).seen := cf.2.2.2.2.2.2.1
+    have hsrc1 : (s1.get m).sources = (s.get m).sources := cf.2.2.1
+    by_cases hc : (ch || (true && (s1.get m).st == .dirty)) = true
+    · rw [if_pos hc]
+      refine ⟨hp.inv, fr1, hp.obs, hp.running, fun h' => (by cases h'), fun _ hruns => ?_⟩
+      simp only at hruns ⊢
+      by_cases hch : ch = true
+      · have hv : (s.get x).ver < (s1.get x).ver := hp.ver hch
+        have hxs' := hxs
+        rw [h.srcSeen m hk hr] at hxs'
+        obtain ⟨e, he, hex⟩ := List.mem_map.1 hxs'
+        refine ⟨e, by rw [hseen1]; exact he, ?_⟩
+        have := h.verLe m e he
+        rw [hex] at this ⊢
+        omega
+      · have hd : (s1.get m).st = .dirty := by
+          simp only [Bool.or_eq_true, Bool.true_and, beq_iff_eq] at hc
+          rcases hc with hc | hc
+          · exact absurd hc hch
+          · exact hc
+        exact hp.inv.verDirty m hk1 hr1 hd hruns
+    · rw [if_neg hc]
+      have hnd1 : (s1.get m).st ≠ .dirty := by
+        intro hd; apply hc; simp [hd]
+      have hch : ch = false := by
+        cases ch with
+        | false => rfl
+        | true => exact absurd (by simp) hc
+      have ih' := ih s1 hp.inv hk1 hr1 (fun r hr' => hlow r (by rw [← hp.running]; exact hr')) hnd1
+        (fun y hy => by rw [hsrc1]; exact hl y (List.mem_cons_of_mem _ hy))
+      generalize anySrc u true m l s1 = r2 at ih'
+      refine ⟨ih'.inv, fr1.trans ih'.frame, ih'.obs.trans hp.obs,
+        fun i => (ih'.running i).trans (hp.running i), fun h2 => ?_, ih'.just⟩
+      have a2 := ih'.allClean h2
+      refine ⟨fun y hy hky => ?_, a2.2⟩
+      rcases List.mem_cons.1 hy with rfl | hy
+      · exact (ih'.frame.clean y (hp.clean hky)).1
+      · exact a2.1 y hy (by rw [hp.frame.kind]; exact hky)
+
+/-- re-stamping a `check` memo whose sources are all clean -/
+theorem restamp_spec {p : Prog} {s : State} {m : Nat} (h : InvR p s) (hk : (s.get m).kind = .memo)
+    (hr : (s.get m).running = false) (hnd : (s.get m).st ≠ .dirty)
+    (hsrc : ∀ x ∈ (s.get m).sources, (s.get x).kind = .memo → (s.get x).st = .clean) :
+    UpdPost p s m (s.upd m fun n => { n with st := .clean }, false) := by
+  have hm : m < s.nodes.length := s.lt_of_kind_ne (by rw [hk]; simp)
+  generalize hs' : (s.upd m fun n => { n with st := .clean }) = s'
+  have gm : s'.get m = { s.get m with st := .clean } := by subst hs'; rw [State.get_upd_same _ _ hm]
+  have go : ∀ i, i ≠ m → s'.get i = s.get i := by
+    intro i hi; subst hs'; rw [State.get_upd_ne _ _ (Ne.symm hi)]
+  have hcore : ∀ i, (s'.get i).core = (s.get i).core := by
+    intro i; by_cases hi : i = m
+    · subst hi; rw [gm]; rfl
+    · rw [go i hi]
+  have cf := fun i => Node.core_fields (hcore i)
+  have stm : (s'.get m).st = .clean := by rw [gm]
+  have sto : ∀ i, i ≠ m → (s'.get i).st = (s.get i).st := fun i hi => by rw [go i hi]
+  have hlen : s'.nodes.length = s.nodes.length := by subst hs'; simp
+  have hobs : s'.obs = s.obs := by subst hs'; rfl
+  have hlog : s'.log = s.log := by subst hs'; rfl
+  have nc : ∀ i, (s'.get i).st ≠ .clean → i ≠ m ∧ (s.get i).st ≠ .clean := by
+    intro i hi
+    have him : i ≠ m := by intro e; subst e; exact hi stm
+    exact ⟨him, by rw [← sto i him]; exact hi⟩
+  have hinv : InvR p s' := by
+    constructor
+    · exact hlen.trans h.len
+    · intro i d hd; rw [(cf i).1]; exact h.kind i d hd
+    · intro i hi hki
+      rw [(cf i).1] at hki
+      have him : i ≠ m := by intro e; subst e; rw [hk] at hki; cases hki
+      rw [go i him]; exact h.sigOk i hi hki
+    · intro o ho; rw [hobs] at ho; rw [(cf o).2.2.2.2.2.1]; exact h.obsRun o ho
+    · intro a w; rw [(cf a).2.2.2.1, (cf w).2.2.1]; exact h.edge a w
+    · intro a; rw [(cf a).2.2.2.1]; exact h.nodup a
+    · intro w a ha; rw [(cf w).2.2.1] at ha; exact h.srcLt w a ha
+    · intro r hkr hrr
+      rw [(cf r).1] at hkr; rw [(cf r).2.2.2.2.2.1] at hrr
+      have hrm : r ≠ m := by intro e; subst e; rw [hr] at hrr; cases hrr
+      rw [sto r hrm]; exact h.runNC r hkr hrr
+    · intro a w hka hsa hw hkw
+      rw [(cf a).1] at hka; rw [(cf w).1] at hkw; rw [(cf a).2.2.2.1] at hw
+      obtain ⟨ham, hsa'⟩ := nc a hsa
+      by_cases hwm : w = m
+      · subst hwm
+        exact absurd (hsrc a ((h.edge a w).1 hw) hka) hsa'
+      · rw [sto w hwm]; exact h.closed a w hka hsa' hw hkw
+    · intro i hki hri
+      rw [(cf i).1] at hki; rw [(cf i).2.2.2.2.2.1] at hri
+      rw [(cf i).2.2.1, (cf i).2.2.2.2.2.2.1]; exact h.srcSeen i hki hri
+    · intro i hki hri hv
+      rw [(cf i).1] at hki; rw [(cf i).2.2.2.2.2.1] at hri; rw [(cf i).2.1] at hv
+      have hd := h.valNone i hki hri hv
+      have him : i ≠ m := by intro e; subst e; exact hnd hd
+      rw [sto i him]; exact hd
+    · intro i hki hri hsi ρ hρ
+      rw [(cf i).1] at hki; rw [(cf i).2.2.2.2.2.1] at hri; rw [(cf i).2.2.2.2.2.2.1] at hρ
+      rw [(cf i).2.1]
+      by_cases him : i = m
+      · subst him; exact h.replay i hki hri hnd ρ hρ
+      · rw [sto i him] at hsi; exact h.replay i hki hri hsi ρ hρ
+    · intro i hki hri hsi e he
+      rw [(cf i).1] at hki; rw [(cf i).2.2.2.2.2.1] at hri; rw [(cf i).2.2.2.2.2.2.1] at he
+      rw [(cf e.1).2.2.2.2.2.1, (cf e.1).2.1]
+      by_cases him : i = m
+      · subst him; exact h.srcVal i hki hri hnd e he
+      · rw [sto i him] at hsi; exact h.srcVal i hki hri hsi e he
+    · intro i hki hri hsi hruns
+      rw [(cf i).1] at hki; rw [(cf i).2.2.2.2.2.1] at hri; rw [(cf i).2.2.2.2.2.2.2.2] at hruns
+      have him : i ≠ m := by intro e; subst e; rw [stm] at hsi; cases hsi
+      rw [sto i him] at hsi
+      obtain ⟨e, he, hne⟩ := h.verDirty i hki hri hsi hruns
+      exact ⟨e, by rw [(cf i).2.2.2.2.2.2.1]; exact he, by rw [(cf e.1).2.2.2.2.2.2.2.1]; exact hne⟩
+    · intro w e he
+      rw [(cf w).2.2.2.2.2.2.1] at he; rw [(cf e.1).2.2.2.2.2.2.2.1]; exact h.verLe w e he
+  refine ⟨hinv, ?_, hobs, fun i => (cf i).2.2.2.2.2.1, fun _ => stm, (cf m).2.2.2.1, fun hc => by cases hc⟩
+  refine ⟨hlen, fun i => (cf i).1, ?_, fun i => by rw [(cf i).2.2.2.2.2.2.2.1]; exact Nat.le_refl _,
+    fun i _ => (cf i).2.2.2.2.2.2.2.1, ?_, fun hl i => by rw [hlog]; exact hl i⟩
+  · intro i hi
+    refine ⟨?_, (cf i).2.1⟩
+    by_cases him : i = m
+    · subst him; exact stm
+    · rw [sto i him]; exact hi
+  · intro i hi
+    exact ⟨hcore i, .inl (sto i (by omega))⟩
+
+theorem UpdPost.refl {p : Prog} {s : State} {m : Nat} (h : InvR p s)
+    (hc : (s.get m).kind = .memo → (s.get m).st = .clean) : UpdPost p s m (s, false) :=
+  ⟨h, Frame.refl s _, rfl, fun _ => rfl, hc, rfl, fun hc => by cases hc⟩
+
+theorem upd_step {p : Prog} (hp : MemoOK p) {f : Nat} (hu : UpdOK p (upd p f) f) :
+    UpdOK p (upd p (f + 1)) (f + 1) := by
+  intro s m h hmf hr hlow
+  rw [upd_succ]
+  by_cases hk : (s.get m).kind = .memo
+  · have hk' : ((s.get m).kind != .memo) = false := by rw [hk]; rfl
+    rw [hk']
+    simp only [Bool.false_eq_true, if_false]
+    cases hst : (s.get m).st with
+    | clean =>
+      simp only [Bool.false_eq_true, if_false]
+      have e : (s.upd m fun n => { n with st := .clean }) = s := by
+        apply State.upd_eq_self
+        have : s.get m = { s.get m with st := (s.get m).st } := rfl
+        rw [hst] at this; exact this.symm
+      rw [e]
+      exact UpdPost.refl h (fun _ => hst)
+    | dirty =>
+      simp only [if_true]
+      exact runMemo_spec hp hu h (by omega) hk hr (by rw [hst]; simp) hlow
+        (fun hruns => h.verDirty m hk hr hst hruns)
+    | check =>
+      simp only
+      have ap := anySrc_spec hu (m := m) (by omega) (s.get m).sources s h hk hr hlow (by rw [hst]; simp)
+        (fun x hx => hx)
+      generalize anySrc (upd p f) true m (s.get m).sources s = r at ap
+      obtain ⟨s1, need⟩ := r
+      simp only at ap ⊢
+      have ab := ap.frame.above m (Nat.le_refl _)
+      have cf := Node.core_fields ab.1
+      have hk1 : (s1.get m).kind = .memo := by rw [cf.1]; exact hk
+      have hr1 : (s1.get m).running = false := by rw [cf.2.2.2.2.2.1]; exact hr
+      have fr1 : Frame s s1 (m + 1) := ap.frame.mono (by omega)
+      by_cases hn : need = true
+      · rw [if_pos hn]
+        have hnc : (s1.get m).st ≠ .clean := by
+          rcases ab.2 with h' | h'
+          · rw [h', hst]; simp
+          · rw [h']; simp
+        have post := runMemo_spec hp hu ap.inv (by omega) hk1 hr1 hnc
+          (fun r hr' => hlow r (by rw [← ap.running]; exact hr')) (ap.just hn)
+        generalize runMemo p f s1 m = r2 at post
+        exact ⟨post.inv, fr1.trans post.frame, post.obs.trans ap.obs,
+          fun i => (post.running i).trans (ap.running i), fun _ => post.clean hk1,
+          post.subs.trans cf.2.2.2.1, fun hc => by rw [← cf.2.2.2.2.2.2.2.1]; exact post.ver hc⟩
+      · rw [if_neg hn]
+        have hn' : need = false := by simpa using hn
+        have ac := ap.allClean hn'
+        have post := restamp_spec ap.inv hk1 hr1 ac.2 (fun x hx hkx => by
+          rw [cf.2.2.1] at hx
+          exact ac.1 x hx (by rw [← ap.frame.kind]; exact hkx))
+        generalize (s1.upd m fun n => { n with st := .clean }) = s2 at post
+        exact ⟨post.inv, fr1.trans post.frame, post.obs.trans ap.obs,
+          fun i => (post.running i).trans (ap.running i), fun _ => post.clean hk1,
+          post.subs.trans cf.2.2.2.1, fun hc => by cases hc⟩
+  · have hk' : ((s.get m).kind != .memo) = true := by
+      cases hkk : (s.get m).kind <;> simp_all
+    rw [hk']
+    simp only [if_true]
+    exact UpdPost.refl h (fun h' => absurd h' hk)
+
+theorem upd_ok {p : Prog} (hp : MemoOK p) : ∀ f, UpdOK p (upd p f) f
+  | 0 => fun _ _ _ h => by omega
+  | f + 1 => upd_step hp (upd_ok hp f)
+
 end Leptos.Reactive
